@@ -255,6 +255,11 @@ func c18CompareSources(shipped, regenerated []byte) (string, int) {
 	if a.pkg != b.pkg {
 		return "package-clause", 0
 	}
+	// comments are not part of the comparison - except those the toolchain reads: build constraints, compiler
+	// directives, the generated-code marker
+	if da, db := c18Directives(shipped), c18Directives(regenerated); da != db {
+		return "directive-comments", 0
+	}
 	if strings.Join(a.imports, "|") != strings.Join(b.imports, "|") {
 		return "imports", 0
 	}
@@ -476,4 +481,18 @@ func c18CompareDicts(shipped, regen *dictionary.Dictionary) string {
 	}
 	na, nv := len(dsSplit(sa)), len(dsSplit(sv))
 	return fmt.Sprintf("same attrs=%d values=%d vendors=%d", na, nv, len(shipped.Vendors))
+}
+
+// c18Directives: the comment lines a Go toolchain acts on, in order
+func c18Directives(src []byte) string {
+	var out []string
+	for _, l := range strings.Split(string(src), "\n") {
+		t := strings.TrimSpace(l)
+		if strings.HasPrefix(t, "//go:") || strings.HasPrefix(t, "// +build") || strings.HasPrefix(t, "//+build") ||
+			strings.HasPrefix(t, "//line ") || strings.HasPrefix(t, "//export ") || strings.HasPrefix(t, "// Code generated") ||
+			strings.HasPrefix(t, "// Deprecated:") || strings.HasPrefix(t, "#cgo") {
+			out = append(out, t)
+		}
+	}
+	return strings.Join(out, "\n")
 }
